@@ -244,6 +244,11 @@ def replay_ops(da, ops, src, chunks):
     H = [da.from_array(src, chunks=chunks)]
     names = {}
     lits, trace = [], []
+    # mirror of the model's expression TERMS (per Python object): the model identifies expressions structurally, the
+    # implementation by name; a history on which two structurally different constructions get ONE real name (e.g.
+    # compute_chunk_sizes(optimize(e)) and optimize(compute_chunk_sizes(e))) is outside the model and skipped
+    terms = {id(H[0]): ("src",)}
+    name_term = {}
     for op in ops:
         kind = op[0]
         with warnings.catch_warnings():
@@ -284,6 +289,23 @@ def replay_ops(da, ops, src, chunks):
                 else:
                     o = names.setdefault(y.expr._name, len(names) + 1)
                     lits.append(f"Optimize {op[1]}%nat (Some {o}%positive)")
+        if kind == "Derive":
+            if H[-1] is not H[op[1]]:
+                terms[id(H[-1])] = ("der", op[2], terms[id(H[op[1]])])
+        elif kind == "SetItem":
+            terms[id(H[op[1]])] = ("set", terms[id(H[op[1]])], op[2], op[3])
+        elif kind == "SetMask":
+            terms[id(H[op[1]])] = ("where", terms[id(H[op[1]])], op[2], op[3])
+        elif kind == "UfuncOut":
+            terms[id(H[op[2]])] = ("out", terms[id(H[op[1]])], terms[id(H[op[2]])])
+        elif kind == "ComputeChunkSizes":
+            terms[id(H[op[1]])] = ("chunks", terms[id(H[op[1]])])
+        elif kind == "Optimize" and H[-1] is not H[op[1]]:
+            terms[id(H[-1])] = terms[id(H[op[1]])] if H[-1].expr._name == H[op[1]].expr._name else ("lower", H[-1].expr._name)
+        for x in H:
+            t = terms[id(x)]
+            if name_term.setdefault(x.expr._name, t) != t:
+                raise SkipHistory()
         row = []
         for x in H:
             first = next(i for i, y in enumerate(H) if y is x)
@@ -357,7 +379,7 @@ def model_family(chk, da):
         try:
             lits, trace, H = replay_ops(da, ops, src, chunks)
         except SkipHistory:
-            chk.count("model-history-skipped:optimize-lands-on-known-expression")
+            chk.count("model-history-skipped:one-name-for-two-constructions(outside the model)")
             continue
         except Exception as e:  # noqa: BLE001
             chk.violation(f"a history of in-place operations raises {type(e).__name__}: {str(e)[:100]}", {"ops": ops, "size": size, "chunks": chunks},
